@@ -55,7 +55,7 @@ META = dict(
     need=["cov_compare", "mean_compare", "affine_compare", "refine_compare", "generic_sample_compare",
           "generic_cov_compare", "model_compare", "vanloan_selfcheck"],
     quick=dict(cases=300, workers=6, budget_s=60),
-    thorough=dict(cases=12000, workers=16, budget_s=700),
+    thorough=dict(cases=3000, workers=16, budget_s=700),
     design_ref="DESIGN.md §5 C29",
     level_text=("exact (no sampling) comparison of complete grid covariances for generated grids and "
                 "parameters; exploration, not exhaustive"),
